@@ -225,7 +225,8 @@ class WritableVersion(dns.zone.WritableVersion):
         if self.zone.relativize:
             return name == dns.name.empty
         else:
-            return name == self.zone.origin
+            # Use the version's origin: the zone's is not set until the first commit.
+            return name == self.origin
 
     def _maybe_cow_with_name(
         self, name: dns.name.Name
